@@ -312,19 +312,20 @@ def teardown_verifies_all(chk, F, rule, cfg, fn, paths):
 def into_counter(chk, F, rule, cfg):
     # new_call_pattern as a whole (the small counter constructors it goes through are part of it): the pattern's counter starts at 0
     # and carries exactly the builder's expectation
-    nc = F.fn('assemble::MockAssembler::new_call_pattern')
+    from props import assembly as A_
     inline = lambda f, d, n: f.kind in ('fn', 'assoc') and len(f.blocks) < 30  # noqa: E731
+    nc, BUILDER, builds = A_.pattern_builds(F, inline)
     n = 0
-    for p in symex.Interp(F, inline=inline).run(nc):
-        if p.outcome[0] != 'return':
+    for p, built in builds:
+        if built is None or built[0] != 'agg':
             continue
         n += 1
-        d = dict(strip(p.outcome[1])[4])
+        d = dict(built[4])
         cc = strip(d.get('call_counter', ('unk', '')))
         cd = dict(cc[4]) if cc[0] == 'agg' else {}
         ac = strip(cd.get('actual_count', ('unk', '')))
         ex = cd.get('expectation', ('unk', ''))
-        ok = is_call(ac, r'Atomic\w*::new$') and ac[2] and ac[2][0] == ('c', 0) and field_path(ex) == (('param', 0, 2), ['count_expectation'])
+        ok = is_call(ac, r'Atomic\w*::new$') and ac[2] and ac[2][0] == ('c', 0) and field_path(ex) == (('param', 0, BUILDER), ['count_expectation'])
         chk.ob(rule, 'the pattern\'s counter starts at 0 and is built from the builder\'s expectation, unchanged', ok, config=cfg, fn=nc, site='expectation', what='call_counter %s' % show(cc)[:120], found=show(cc)[:200])
     chk.floor(rule, 'paths of new_call_pattern', n, 2, config=cfg)
     lb = F.fn('counter::CallCountExpectation::new', optional=True)    # (a private convenience constructor: absent when the struct literal is written out)
